@@ -1,3 +1,4 @@
+import OtelVerif.Gen.PQKeys
 /-!
 # C01 — persistent sending queue as a store/memory machine with crash steps
 
@@ -21,6 +22,7 @@ capacity check; a missing read index next to a stored write index means 0).
 Indexes are `Nat` (the code uses `uint64`; fewer than 2^64 writes is an assumption of the trusted base).
 -/
 namespace OtelVerif.C01
+open OtelVerif.Gen
 
 structure Req where
   id : Nat
@@ -31,6 +33,8 @@ deriving DecidableEq, Repr, Inhabited
 structure Conf where
   cap : Nat := 0
   reqSized : Bool := true
+  /-- `blockOnOverflow`: a full queue makes `Offer` wait for space instead of returning `ErrQueueIsFull` -/
+  block : Bool := false
 deriving Repr
 
 /-- `pq.set.sizer.Sizeof(req)` -/
@@ -85,6 +89,8 @@ structure Mem where
   size : Nat := 0
   stopped : Bool := false
   outst : List (Nat × Req) := []
+  /-- `blockOnOverflow`: the offers blocked in `hasMoreSpace.Wait`, in arrival order (`cond.waiters` is FIFO) -/
+  waiting : List Req := []
 
 inductive Outcome
   | final        -- success or any non-shutdown failure
@@ -92,7 +98,7 @@ inductive Outcome
 deriving DecidableEq, Repr
 
 inductive Res
-  | none | offerOk | offerFull | readItem (i : Nat) (r : Req) | readStopped | readEmpty
+  | none | offerOk | offerFull | offerBlocked | offerTooLarge | offerCancelled | readItem (i : Nat) (r : Req) | readStopped | readEmpty
   | doneOk | doneUnknown | shutOk
   | err          -- the operation returned a storage error (only in the machine with storage errors, `Model/C01Err.lean`)
 deriving DecidableEq, Repr
@@ -142,10 +148,16 @@ inductive Label
   | start
   | tick
   | crash
+  | wake                 -- the oldest blocked offer is signalled (`hasMoreSpace.Signal`) and re-checks the capacity
+  | cancel (j : Nat)     -- the context of the j-th blocked offer is cancelled: its `Offer` returns the context error
 deriving Repr
 
 /-- `(idx % 10) == m` guard of the periodic `backupQueueSize`, which is a no-op for request-sized queues -/
-def backupDue (k : Conf) (idx m : Nat) : Bool := !k.reqSized && idx % 10 == m
+def backupDue (k : Conf) (idx md rm : Nat) : Bool := !k.reqSized && idx % md == rm
+/-- `(pq.writeIndex % 10) == 5` in `writeInternal`; modulus and remainder are regenerated from the source -/
+def writeBackupDue (k : Conf) (wi : Nat) : Bool := backupDue k wi PQKeys.writeBackupMod PQKeys.writeBackupRem
+/-- `(pq.readIndex % 10) == 0` in `onDone`; regenerated likewise -/
+def readBackupDue (k : Conf) (ri : Nat) : Bool := backupDue k ri PQKeys.readBackupMod PQKeys.readBackupRem
 
 /-- `itemDispatchingFinish`'s removal: overwrite the first occurrence with the last element, drop the last -/
 def swapRemove : List Nat → Nat → List Nat
@@ -159,16 +171,37 @@ def afterMove (todo : List (Nat × Option Req)) : Pc :=
   | [] => .idle
   | _ :: _ => .moving todo
 
-/-- `Offer` → `putInternal` → `writeInternal` (first storage call) -/
+/-- `writeInternal` for a new request (first storage call of an accepted `Offer`) -/
+def doPut (c : Cfg) (m : Mem) (r : Req) : Cfg :=
+  let m' := { m with wi := m.wi + 1, size := m.size + c.k.sizeof r }
+  { c with calls := c.calls + 1, accepted := r :: c.accepted,
+           st := c.st.putB m.wi r,
+           ph := .live m' (if writeBackupDue c.k (m.wi + 1) then .backup else .idle),
+           res := .offerOk }
+
+/-- `putInternal` when `queueSize + reqSize > capacity`: reject, or (blockOnOverflow) reject a request that can never
+    fit, or wait for space — no storage call in any case -/
+def doOfferFull (c : Cfg) (m : Mem) (r : Req) : Cfg :=
+  if c.k.block = false then { c with res := .offerFull }
+  else if c.k.sizeof r > c.k.cap then { c with res := .offerTooLarge }
+  else { c with ph := .live { m with waiting := m.waiting ++ [r] } .idle, res := .offerBlocked }
+
+/-- `Offer` → `putInternal` -/
 def doOffer (c : Cfg) (m : Mem) (r : Req) : Cfg :=
-  let sz := c.k.sizeof r
-  if m.size + sz > c.k.cap then { c with res := .offerFull }
-  else
-    let m' := { m with wi := m.wi + 1, size := m.size + sz }
-    { c with calls := c.calls + 1, accepted := r :: c.accepted,
-             st := c.st.putB m.wi r,
-             ph := .live m' (if backupDue c.k (m.wi + 1) 5 then .backup else .idle),
-             res := .offerOk }
+  if m.size + c.k.sizeof r > c.k.cap then doOfferFull c m r else doPut c m r
+
+/-- the oldest waiter returns from `hasMoreSpace.Wait` and goes round `putInternal`'s loop again: still no room →
+    it waits again (at the back of the FIFO); room → `writeInternal` -/
+def doWake (c : Cfg) (m : Mem) : Cfg :=
+  match m.waiting with
+  | [] => c
+  | r :: rest =>
+    if m.size + c.k.sizeof r > c.k.cap then
+      { c with ph := .live { m with waiting := rest ++ [r] } .idle, res := .offerBlocked }
+    else doPut c { m with waiting := rest } r
+
+def doCancel (c : Cfg) (m : Mem) (j : Nat) : Cfg :=
+  { c with ph := .live { m with waiting := m.waiting.eraseIdx j } .idle, res := .offerCancelled }
 
 /-- head of `Read`'s loop: stopped → false; empty → would block (`readEmpty`); else `getNextItem`'s batch
     (set `ri`, set `di`, get item).  The `queueSize = 0` resynchronisation is memory-only and applied at once. -/
@@ -198,7 +231,7 @@ def doDone (c : Cfg) (m : Mem) (i : Nat) (oc : Outcome) : Cfg :=
       let cdi := swapRemove m.cdi i
       { c with calls := c.calls + 1, finalised := r :: c.finalised,
                st := c.st.finB cdi i,
-               ph := .live { m1 with cdi := cdi } (if backupDue c.k m.ri 0 then .backup else .idle),
+               ph := .live { m1 with cdi := cdi } (if readBackupDue c.k m.ri then .backup else .idle),
                res := .doneOk }
 
 /-- `Shutdown`: `backupQueueSize` (one `Set si` unless request-sized), `stopped = true` -/
@@ -230,12 +263,12 @@ def doMove (c : Cfg) (m : Mem) (todo : List (Nat × Option Req)) : Cfg :=
     let m' := { m with wi := m.wi + 1, size := m.size + c.k.sizeof r }
     { c with calls := c.calls + 1,
              st := c.st.moveB m.wi r i (rest.map Prod.fst),
-             ph := .live m' (if backupDue c.k (m.wi + 1) 5 then .movingBackup rest else afterMove rest) }
+             ph := .live m' (if writeBackupDue c.k (m.wi + 1) then .movingBackup rest else afterMove rest) }
 
 /-- where control goes when `itemDispatchingFinish` returns -/
 def finCont (k : Conf) (m : Mem) : FinK → Pc
   | .read => .readLoop
-  | .done => if backupDue k m.ri 0 then .backup else .idle
+  | .done => if readBackupDue k m.ri then .backup else .idle
 
 def doTick (c : Cfg) (m : Mem) : Pc → Cfg
   | .fin1 i k => { c with calls := c.calls + 1, st := c.st.finB m.cdi i, ph := .live m (finCont c.k m k) }
@@ -283,6 +316,12 @@ def fire (c : Cfg) : Label → Cfg
     | _ => c
   | .shutdown => match c.ph with
     | .live m .idle => doShutdown c m
+    | _ => c
+  | .wake => match c.ph with
+    | .live m .idle => doWake c m
+    | _ => c
+  | .cancel j => match c.ph with
+    | .live m .idle => doCancel c m j
     | _ => c
 
 def init (k : Conf) : Cfg := { k := k }
